@@ -12,14 +12,15 @@ import (
 )
 
 type Clause struct {
-	Local bool   // proved for the function itself but not assumed by its callers (keeps callers' queries small)
-	Kind  string // requires, ensures, assume, invariant, decreases, lemma
-	Name  string // lemma name
-	Tags  []string
-	Text  string
-	Expr  *CExpr
-	File  string
-	Line  int
+	Assumed bool   // a post-condition assumed by callers and not proved on the body (assumedensures)
+	Local   bool   // proved for the function itself but not assumed by its callers (keeps callers' queries small)
+	Kind    string // requires, ensures, assume, invariant, decreases, lemma
+	Name    string // lemma name
+	Tags    []string
+	Text    string
+	Expr    *CExpr
+	File    string
+	Line    int
 }
 
 type LoopSpec struct {
@@ -50,6 +51,11 @@ type DelegateSpec struct {
 
 type SepSpec struct {
 	Param, Field string
+}
+
+type Macro struct {
+	Params []string
+	Body   *CExpr
 }
 
 type WriteSpec struct {
@@ -116,6 +122,7 @@ type Lemma struct {
 type Specs struct {
 	Contracts map[string]*Contract
 	SpecFns   map[string]*SpecFn
+	Macros    map[string]*Macro // macro name(params) expr: abbreviations usable in every clause
 	Lemmas    []*Clause
 	Prelude   string
 	Globals   []*Clause // global invariants (assumed everywhere, proved for init)
@@ -242,6 +249,28 @@ func (sp *Specs) parseLine(cur **Contract, line, file string, ln int) error {
 		sp.Contracts[rest] = c
 		*cur = c
 		return nil
+	case "macro":
+		// macro name(a, b) <expression over a, b>
+		re := regexp.MustCompile(`^(\w+)\(([^)]*)\)\s+(.*)$`)
+		mm := re.FindStringSubmatch(rest)
+		if mm == nil {
+			return fmt.Errorf("bad macro %q", rest)
+		}
+		body, err := parseCExpr(mm[3])
+		if err != nil {
+			return err
+		}
+		m := &Macro{Body: body}
+		for _, p := range strings.Split(mm[2], ",") {
+			if p = strings.TrimSpace(p); p != "" {
+				m.Params = append(m.Params, p)
+			}
+		}
+		if sp.Macros == nil {
+			sp.Macros = map[string]*Macro{}
+		}
+		sp.Macros[mm[1]] = m
+		return nil
 	case "specfn":
 		// specfn name(a T, b U) R [mem H B]
 		re := regexp.MustCompile(`^(\w+)\(([^)]*)\)\s*(\w+)(?:\s+mem\s+(.*))?$`)
@@ -320,9 +349,12 @@ func (sp *Specs) parseLine(cur **Contract, line, file string, ln int) error {
 		c.MemDep = strings.Fields(rest)
 	case "fresh":
 		c.Fresh = append(c.Fresh, strings.Fields(rest)...)
-	case "requires", "ensures", "assume", "ghostdef", "localensures":
+	case "requires", "ensures", "assume", "ghostdef", "localensures", "assumedensures":
 		isLocal := kw == "localensures"
-		if isLocal {
+		// assumedensures: a post-condition about what the environment stored earlier (e.g. what was registered);
+		// it is assumed by callers, not proved on the body, and listed among the assumptions
+		isAssumed := kw == "assumedensures"
+		if isLocal || isAssumed {
 			kw = "ensures"
 		}
 		cl, err := mk(kw, rest)
@@ -330,6 +362,7 @@ func (sp *Specs) parseLine(cur **Contract, line, file string, ln int) error {
 			return err
 		}
 		cl.Local = isLocal
+		cl.Assumed = isAssumed
 		switch kw {
 		case "requires":
 			c.Requires = append(c.Requires, cl)
